@@ -83,6 +83,17 @@ def build_scenarios(T, base, tier, serial_T=None):
     S.append(Scn("gensquashfs-packdir", "gensquashfs", T, os.path.join(base, "s1"), prep_dir,
                  lambda b, out: [T["gensquashfs"], "-q", "-b", "4096", "-j", "1", "-D", os.path.join(b, "root"), "-x", out], "image", packer=True))
 
+    # S1b: many tails: fragment blocks overflow, a late tail duplicates one in a fragment block that is already on disk (read back + uncompress + compare)
+    fragspec = scenarios.spec_frag() + [E(b"u%d" % i, "file", content=content_pattern("u%d" % i, 1400)) for i in range(4)] + \
+        [E(b"zdup", "file", content=content_pattern("t1", 1500)), E(b"zdup2", "file", content=b"A" * 1300), E(b"a0", "file", content=b"A" * 1300)]
+
+    def prep_frag(b):
+        pf = treegen.render_packfile(fragspec, b)
+        open(os.path.join(b, "pack.txt"), "wb").write(pf)
+    S.append(Scn("gensquashfs-fragment-dedup-on-disk", "gensquashfs", T, os.path.join(base, "s1b"), prep_frag,
+                 lambda b, out: [T["gensquashfs"], "-q", "-b", "4096", "-j", "1", "-c", "gzip", "-F", os.path.join(b, "pack.txt"), "-D", os.path.join(b, "in"), out],
+                 "image", packer=True))
+
     # S2: gensquashfs pack file + sort file + xattr file (text inputs through get_line)
     def prep_pf(b):
         pf = treegen.render_packfile(rich, b)
